@@ -54,3 +54,19 @@ pub open spec fn bk_upper_ok(b: std::ops::Bound<([u8; 32], Bytes, [u8; 32])>, id
         std::ops::Bound::Unbounded => true,
     }
 }
+
+pub proof fn lemma_rec_lt_asym(a: RecId, b: RecId)
+    ensures !(rec_lt(a, b) && rec_lt(b, a)), !(rec_lt(a, b) && rec_eq(a, b)), !(rec_lt(a, b) && rec_eq(b, a))
+{
+    lemma_lex_asym(a.ns, b.ns); lemma_lex_asym(a.author, b.author); lemma_lex_asym(a.key, b.key);
+    lemma_lex_irrefl(a.ns); lemma_lex_irrefl(a.author); lemma_lex_irrefl(a.key);
+}
+
+pub proof fn lemma_rec_lt_trans(a: RecId, b: RecId, c: RecId)
+    requires rec_lt(a, b), rec_lt(b, c)
+    ensures rec_lt(a, c)
+{
+    if lex_lt(a.ns, b.ns) && lex_lt(b.ns, c.ns) { lemma_lex_trans(a.ns, b.ns, c.ns); }
+    if lex_lt(a.author, b.author) && lex_lt(b.author, c.author) { lemma_lex_trans(a.author, b.author, c.author); }
+    if lex_lt(a.key, b.key) && lex_lt(b.key, c.key) { lemma_lex_trans(a.key, b.key, c.key); }
+}
